@@ -4,12 +4,8 @@
 //! Exit codes: 0 held on everything explored; 1 violation (one `VIOLATION property=<id> replay=<path>`
 //! line each); 2 inconclusive (watchdog, generator failure, bad usage).
 
-#[macro_use]
-pub mod engine;
-pub mod oracle;
-pub mod props;
-
-use engine::{report, Ctx, Tier};
+use vcheck::engine::{self, report, Ctx, Tier};
+use vcheck::props;
 use std::path::PathBuf;
 use std::sync::atomic::Ordering;
 
